@@ -27,6 +27,8 @@ type LoopSpec struct {
 	IdxName    string
 	Invariants []Clause
 	Decreases  *Clause
+	Instantiate []Clause // lemma instances assumed at the loop header (terms may mention loop variables)
+	Reveal     []Clause
 }
 
 type Contract struct {
@@ -38,6 +40,7 @@ type Contract struct {
 	Requires    []Clause
 	Ensures     []Clause
 	Lets        []LetClause
+	Reveal      []Clause // reveal f(args): unfold an opaque spec function for these arguments
 	Instantiate []Clause // ghost calls of pure contracted functions: "instantiate From(c[0])"
 	Defines     []Clause // definitional naming of a deterministic result by a spec function: assumed at call sites, never checked
 	PanicsWhen  []Clause
@@ -53,6 +56,7 @@ type Contract struct {
 	Binders     []Binder // for lemmas
 	Uses        []string // prelude symbols to force-include
 	Fresh       []string // result names asserted fresh
+	UsesLemmas  []string // lemmas (proved separately) assumed universally at entry
 	Candidates  []string // for field contracts: the functions the value may be (dispatch)
 	Used        bool
 }
@@ -224,12 +228,26 @@ func ParseContractFile(path, pkgPath string) ([]*Contract, error) {
 				return nil, err
 			}
 			cur.Lets = append(cur.Lets, LetClause{Name: name, Clause: cl})
+		case "reveal":
+			cl, err := mk()
+			if err != nil {
+				return nil, err
+			}
+			if curLoop != nil && !cur.Global {
+				curLoop.Reveal = append(curLoop.Reveal, cl)
+			} else {
+				cur.Reveal = append(cur.Reveal, cl)
+			}
 		case "instantiate":
 			cl, err := mk()
 			if err != nil {
 				return nil, err
 			}
-			cur.Instantiate = append(cur.Instantiate, cl)
+			if curLoop != nil && !cur.Global {
+				curLoop.Instantiate = append(curLoop.Instantiate, cl)
+			} else {
+				cur.Instantiate = append(cur.Instantiate, cl)
+			}
 		case "loop":
 			m := regexp.MustCompile(`^(\d+)\s*(?:\((\w+)\))?\s*:?\s*$`).FindStringSubmatch(rest)
 			if m == nil || cur == nil {
@@ -256,6 +274,10 @@ func ParseContractFile(path, pkgPath string) ([]*Contract, error) {
 		case "uses":
 			for _, a := range strings.Split(rest, ",") {
 				cur.Uses = append(cur.Uses, strings.TrimSpace(a))
+			}
+		case "uses-lemma":
+			for _, a := range strings.Split(rest, ",") {
+				cur.UsesLemmas = append(cur.UsesLemmas, strings.TrimSpace(a))
 			}
 		case "candidates":
 			for _, a := range strings.Split(rest, ",") {
